@@ -259,7 +259,41 @@ macro_rules! u_seq {
         }
     )*};
 }
-u_seq!(Vec, VecDeque, LinkedList);
+u_seq!(Vec, LinkedList);
+
+/// a deque whose ring buffer is wrapped: the second half is pushed at the
+/// back, the first half at the front (stored at the end of the buffer)
+fn wrapped_deque<T>(items: Vec<T>) -> VecDeque<T> {
+    let n = items.len();
+    let mut dq = VecDeque::with_capacity(n + 3);
+    let mut front: Vec<T> = Vec::new();
+    for (i, x) in items.into_iter().enumerate() {
+        if i < n / 2 + n % 2 {
+            front.push(x);
+        } else {
+            dq.push_back(x);
+        }
+    }
+    for x in front.into_iter().rev() {
+        dq.push_front(x);
+    }
+    dq
+}
+
+impl<T: U> U for VecDeque<T> {
+    fn mk(t: &mut Tape<'_>, d: u32) -> Self {
+        let n = mk_len(t, d);
+        let items: Vec<T> = (0..n).map(|_| T::mk(t, d1(d))).collect();
+        // the layout of the ring buffer is part of the construction history
+        if t.chance(128) { items.into_iter().collect() } else { wrapped_deque(items) }
+    }
+    fn mk_alt(t: &mut Tape<'_>, d: u32) -> Self {
+        let n = mk_len(t, d);
+        let items: Vec<T> = (0..n).map(|_| T::mk(t, d1(d))).collect();
+        if t.chance(128) { wrapped_deque(items) } else { items.into_iter().collect() }
+    }
+    fn veq(&self, o: &Self) -> bool { seq_eq(self.iter(), o.iter()) }
+}
 
 impl<T: U> U for Box<[T]> {
     fn mk(t: &mut Tape<'_>, d: u32) -> Self { Vec::<T>::mk(t, d).into_boxed_slice() }
